@@ -386,6 +386,71 @@ def c08_obligations(tier):
     return obs
 
 
+# ----------------------------------------------------------------------------- C09
+class _Reporter:
+    def __init__(self):
+        self.calls = []
+
+    def __call__(self, exc, text):
+        self.calls.append(exc)
+
+
+def c09_span_test(which):
+    """checkIsOvershoot / checkIsUndershoot on all binary64 pairs: the answer is the exact
+    comparison and the reporter is called (with OutOfBounds) iff the time leaves the span"""
+
+    def run():
+        import z3
+        from engine import ksmt
+        from praatio.utilities import utils
+
+        fn = utils.checkIsOvershoot if which == "over" else utils.checkIsUndershoot
+        fdef = ksmt.func_ast(fn)
+        t, ref = z3.FP("t", ksmt.F64), z3.FP("ref", ksmt.F64)
+        names = [a.arg for a in fdef.args.args]
+
+        def make_env():
+            env = dict(fn.__globals__)
+            env.update({names[0]: t, names[1]: ref, names[2]: _Reporter()})
+            return env
+
+        body = [st for st in fdef.body if not (isinstance(st, ast.Expr) and isinstance(st.value, ast.Constant))]
+        exact = z3.fpGT(t, ref) if which == "over" else z3.fpLT(t, ref)
+        finite = [z3.Not(z3.fpIsNaN(v)) for v in (t, ref)] + [z3.Not(z3.fpIsInf(v)) for v in (t, ref)]
+        claims = []
+        for pc, env, oc in ksmt.explore(body, make_env):
+            calls = env[names[2]].calls
+            if oc[0] != "return" or not isinstance(oc[1], bool) or len(calls) != (1 if oc[1] else 0) or any(c is not errors.OutOfBounds for c in calls):
+                claims.append((pc, True))  # any input reaching this path breaks the contract
+                continue
+            claims.append((pc, z3.Xor(exact, z3.BoolVal(oc[1]))))
+        return _solve(claims, {"t": t, "ref": ref}, finite, 120)
+
+    return run
+
+
+def c09_span_replay(which):
+    def body(t, ref):
+        from praatio.utilities import utils
+
+        rep = _Reporter()
+        fn = utils.checkIsOvershoot if which == "over" else utils.checkIsUndershoot
+        r = fn(t, ref, rep)
+        want = (t > ref) if which == "over" else (t < ref)
+        if r != want:
+            return "%s(%r, %r) = %r: not the exact comparison" % (fn.__name__, t, ref, r)
+        if len(rep.calls) != (1 if want else 0) or any(c is not errors.OutOfBounds for c in rep.calls):
+            return "reporter not called exactly when the time leaves the span"
+        return True
+
+    return body
+
+
+def c09_obligations(tier):
+    fn = ["praatio.utilities.utils.checkIsOvershoot/checkIsUndershoot (translated from the AST)"]
+    return [Ob("fp-span-test-%s" % w, F("t", "ref"), c09_span_replay(w), kind="smt", smt=_guard(c09_span_test(w)), timeout=300, funcs=fn, bounds="all finite binary64 pairs (t, reference)") for w in ("over", "under")]
+
+
 # ----------------------------------------------------------------------------- C16
 def c16_index(rate, width):
     def run():
